@@ -3,7 +3,7 @@
 export VERIF_BUILD_DIR=$PWD/.build VERIF_OUT_DIR=$PWD/out
 mkdir -p $VERIF_OUT_DIR
 for p in "$@"; do
-  for seed in 1 2; do
+  for seed in ${SEEDS:-1 2}; do
     echo "=== $p seed $seed"; VERIF_SEED=$seed VERIF_WALL_S=${WALL:-240} ./verif.sh check $p thorough 2>&1 | grep -v "^$" | cut -c1-300 | tail -6
   done
 done
